@@ -209,7 +209,7 @@ def replay_family(rep, path, run):
     return rc
 
 
-RULE = ("16 element types (basics incl. +0/-0 floats, named basics, comparable struct, pointers to structs incl. recursive and "
+RULE = ("18 element types (basics incl. +0/-0 floats, bool and complex128, named basics incl. a named bool, comparable struct, pointers to structs incl. recursive and "
         "imported, slices, struct with pointers; more on thorough) and 6 key types x a boundary-biased list pool per type "
         "(nil, empty, singleton, duplicates fresh and aliased, both orders of pairs, all 6 orders of triples, Equal-but-not-identical "
         "variants, whole pool / reversed / sorted / reverse-sorted, nil elements, seeded random lists up to length 6 (10 thorough)); "
@@ -220,9 +220,6 @@ RULE = ("16 element types (basics incl. +0/-0 floats, named basics, comparable s
 
 def run(rep):
     run_family(rep, "C13", PLUGINS, OPS, RULE)
-    rep.notes.append("deriveMin/deriveMax on bool (and complex) and deriveSort on a named bool type are accepted by goderive (exit 0) but the "
-                     "emitted code does not compile (`a < b` on bool; deriveCompare(bool,bool) applied to the named type): these element types are "
-                     "outside the corpus of this check; the model answers `panic` (= nothing usable is emitted) for them")
 
 
 def replay(rep, path):
